@@ -5,7 +5,7 @@ import ast
 from typing import Any, Dict, List, Optional, Tuple
 
 from ..ctx import Ctx
-from ..model import AnalysisError, Mod, norm
+from ..model import AnalysisError, Mod, norm, walk_scope
 from ..util import resolve_const
 
 # stackscope's field names that legitimately differ from the header's
@@ -350,4 +350,55 @@ def lay310(ctx: Ctx) -> None:
     ctx.R.expect_min("LAY-310", 2 * (10 + 3 + 6))
 
 
-RULES = [lay311, lay310]
+def blk1(ctx: Ctx) -> None:
+    """BLK-1 the sanity bounds that inspect_frame (3.9 / 3.10 block stack) asserts on each block admit what each interpreter
+    really stores: FACTS (except_handler_block, read from a live frame of each interpreter) say that the b_handler of an
+    EXCEPT_HANDLER block is -1 on 3.9 and an instruction index on 3.10.  The lower bound of the asserted range is evaluated
+    (engine MINI) for an EXCEPT_HANDLER block with that value under each version the module serves; if the assertion rejects
+    it, every frame with an active except block fails inspection there and falls back to the referents scan"""
+    from types import SimpleNamespace
+    from ..minieval import Mini, Raised, Unsupported
+    mod = ctx.P.mod("_lowlevel_cpython_310")
+    fn = mod.fn("inspect_frame")
+    cmps = [c for a in ast.walk(fn) if isinstance(a, ast.Assert) for c in ast.walk(a.test) if isinstance(c, ast.Compare) and any("b_handler" in norm(x) for x in [c.left] + c.comparators)]
+    if len(cmps) != 1 or len(cmps[0].ops) < 1:
+        ctx.R.undecided("BLK-1", f"{len(cmps)} asserted comparisons mention b_handler (1 expected)")
+        return
+    c = cmps[0]
+    operands = [c.left] + list(c.comparators)
+    hi = [i for i, x in enumerate(operands) if "b_handler" in norm(x)]
+    if hi != [1]:
+        ctx.R.undecided("BLK-1", f"b_handler is not the middle operand of `{norm(c)[:60]}`")
+        return
+    low = ast.Compare(left=operands[0], ops=[c.ops[0]], comparators=[operands[1]])
+    mults = [a for a in walk_scope(fn) if isinstance(a, ast.Assign) and len(a.targets) == 1 and isinstance(a.targets[0], ast.Name) and a.targets[0].id in {n.id for n in ast.walk(low) if isinstance(n, ast.Name)}
+             and a.targets[0].id not in ("block",)]
+    served = [v for v in sorted(ctx.V.all) if ctx.F["interp"][v].get("except_handler_block")]
+    if not served:
+        raise AnalysisError("BLK-1: no interpreter with a block stack in the facts")
+    full = {"3.9": (3, 9, 18), "3.10": (3, 10, 13)}
+    for v in served:
+        fact = ctx.F["interp"][v]["except_handler_block"]
+        h = fact["except_handler_b_handler"]
+        if h is None or v not in full:
+            ctx.R.undecided("BLK-1", f"{v}: no EXCEPT_HANDLER block observed")
+            continue
+        env = {"sys": SimpleNamespace(version_info=full[v], implementation=SimpleNamespace(name="cpython")),
+               "block": SimpleNamespace(b_type=ctx.F["headers"][v]["EXCEPT_HANDLER"], b_handler=h, b_level=0)}
+        m = Mini(env)
+        try:
+            for a in mults:
+                m.stmt(a)
+            ok = m.truth(m.expr(low))
+        except (Unsupported, Raised) as ex:
+            ctx.R.undecided("BLK-1", f"{v}: lower bound `{norm(low)[:70]}` not evaluable: {ex}")
+            continue
+        if ok:
+            ctx.R.ok("BLK-1", f"{v}: EXCEPT_HANDLER block with b_handler {h} passes `{norm(low)[:60]}`", "FACTS except_handler_block")
+        else:
+            ctx.R.fail("BLK-1", mod, c, f"CPython {v} stores b_handler = {h} in EXCEPT_HANDLER blocks (FACTS: read from a live frame), and the block sanity assertion `{norm(low)[:80]}` rejects that value: "
+                       "inspect_frame raises AssertionError for every frame with an active except block on this interpreter, the trickery falls back to the referents scan (managers outside the "
+                       "handler vanish, the exiting entry loses varname / start_line)", construct=f"{v}: EXCEPT_HANDLER b_handler {h} rejected")
+
+
+RULES = [lay311, lay310, blk1]
